@@ -28,7 +28,7 @@ def write(ws, rel, data, mode=None):
         os.chmod(p, mode)
 
 
-def push(ws, args=(), env=None, timeout=60, binary=None):
+def push(ws, args=(), env=None, timeout=60, binary=None, retry_ok=False):
     """Run `rapidquilt push <args>` with cwd = ws.  Returns (rc, stdout, stderr)."""
     e = dict(ENV)
     if env:
@@ -38,7 +38,16 @@ def push(ws, args=(), env=None, timeout=60, binary=None):
                            stdout=subprocess.PIPE, stderr=subprocess.PIPE, timeout=timeout)
         return p.returncode, p.stdout.decode('utf-8', 'replace'), p.stderr.decode('utf-8', 'replace')
     except subprocess.TimeoutExpired:
-        return -999, '', 'TIMEOUT'
+        # a loaded machine is not a hang: only a run that also exceeds a far longer limit counts as one.
+        # (Re-running is harmless for the callers that look at a timeout: they judge the exit status only.)
+        if not retry_ok:
+            return -999, '', 'TIMEOUT'
+        try:
+            p = subprocess.run([binary or vlib.BIN, 'push'] + [str(a) for a in args], cwd=ws, env=e,
+                               stdout=subprocess.PIPE, stderr=subprocess.PIPE, timeout=timeout * 6)
+            return p.returncode, p.stdout.decode('utf-8', 'replace'), p.stderr.decode('utf-8', 'replace')
+        except subprocess.TimeoutExpired:
+            return -999, '', 'TIMEOUT'
 
 
 def snapshot(ws, skip=('patches', 'series'), meta=False):
